@@ -18,11 +18,11 @@ TECHNIQUE = 'property-based testing (Hypothesis): generated products, component/
 LEVEL_TEXT = 'Generated-input search with a relational invariant between component and task states at every step; not a proof.'
 LEVEL_NOTE = 'Trusts the step observer and the builder.'
 
-CFG = gen.Cfg(unit_time=6, warm_modes=["morph", "graft", "carry", "append", "nolog"], warm=4, facilities=True, nested="assembly", max_time=[40, 80])
+CFG = gen.Cfg(unit_time=6, warm_modes=["morph", "graft", "carry", "append", "nolog", "cutrerun"], warm=4, facilities=True, nested="assembly", max_time=[40, 80])
 # arbitrary forests with arbitrary task assignment: only without workplaces (placement of nested
 # products outside the assembly form crashes, known finding D-PLC4 of C13)
-CFG_FREE = gen.Cfg(warm_modes=["morph", "graft", "carry", "append", "nolog"], warm=3, facilities=True, nested="free", max_wps=0, max_time=[40, 80], multi_parent=2)
-CFG_FLAT = gen.Cfg(unit_time=6, warm_modes=["morph", "graft", "carry", "append", "nolog"], warm=2, facilities=True, max_time=[40, 80])
+CFG_FREE = gen.Cfg(warm_modes=["morph", "graft", "carry", "append", "nolog", "cutrerun"], warm=3, facilities=True, nested="free", max_wps=0, max_time=[40, 80], multi_parent=2)
+CFG_FLAT = gen.Cfg(unit_time=6, warm_modes=["morph", "graft", "carry", "append", "nolog", "cutrerun"], warm=2, facilities=True, max_time=[40, 80])
 
 
 # many automatic tasks bound to components, project-wide absence steps early in the run (both settings of the flag)
